@@ -26,7 +26,7 @@ func init() {
 			StatesMean:  "distinct (signature, argument list, call form) cases; transitions = real Next calls",
 			Assumptions: []string{"whether a bridgeable-looking signature (e.g. uint parameters) is accepted is not constrained", "a nil value of function type is not tried (whether it is 'a Go function' is not settled by the statement)", "script numbers outside the range of the declared integer kind are not sent"},
 		},
-		QuickBudget: 70 * time.Second, ThoroughBudget: 14 * time.Minute, CrashIsViolation: true,
+		QuickBudget: 180 * time.Second, ThoroughBudget: 14 * time.Minute, CrashIsViolation: true,
 		Run: runC16,
 	})
 }
